@@ -1562,10 +1562,32 @@ func (s *BgpServer) propagateUpdateToNeighbors(rib *table.TableManager, source *
 					}()
 				} else {
 					alreadySent := targetPeer.hasPathAlreadyBeenSent(newPath)
+					receivedPath := newPath
 					newPath := s.filterpath(targetPeer, newPath, nil)
 					// if the path is not filtered and the path has already been sent or land in the limit, we can send it
 					if newPath == nil {
 						bestList = []*table.Path{}
+						if alreadySent {
+							// The previous version of this path was advertised under the
+							// same path identifier, and its replacement must not be
+							// advertised to this peer (loop prevention, export policy):
+							// withdraw what the peer still holds, and let a path that was
+							// held back by send-max take the freed slot.
+							w := filteredPathForPeer(targetPeer, receivedPath).Clone(true)
+							bestList = append(bestList, w)
+							if destination := rib.GetDestination(receivedPath); destination != nil {
+								for _, p := range destination.GetKnownPathList(targetPeer.TableID(), targetPeer.AS()) {
+									p := s.filterpath(targetPeer, p, nil)
+									if p == nil || !targetPeer.isPathSendMaxFiltered(p) {
+										continue
+									}
+									targetPeer.unsetPathSendMaxFiltered(p)
+									bestList = append(bestList, p)
+									break
+								}
+							}
+							targetPeer.updateRoutes(bestList...)
+						}
 					} else if alreadySent || targetPeer.getRoutesCount(f, newPath.GetPrefix()) < targetPeer.getAddPathSendMax(f) {
 						bestList = []*table.Path{newPath}
 						if !alreadySent {
